@@ -27,7 +27,10 @@ pub fn minimise(
     ex: &mut Executor,
 ) -> (Trial, Value) {
     let start_execs = ex.acc.execs;
-    let budget_left = |ex: &Executor| ex.acc.execs - start_execs < MAX_EXECS;
+    let endless = trial.clone().specs_mut().iter().any(|s| s.input_repeat.map_or(false, |n| n >= crate::scenarios::ENDLESS));
+    // (an input that never ends: the recorded schedule is what makes the run fair, and every attempt costs a whole
+    // step budget - the case is reported as it is)
+    let budget_left = |ex: &Executor| !endless && ex.acc.execs - start_execs < MAX_EXECS;
     let mut best = trial.clone();
     let mut best_dec: Vec<Vec<u16>> = decisions.to_vec();
     let orig_input = best.clone().specs_mut().first().map(|s| s.input.len()).unwrap_or(0);
@@ -63,6 +66,7 @@ pub fn minimise(
                 eof_at: s.io.eof_at,
                 stdout_fail_at: s.io.stdout_fail_at,
                 stdout_errno: s.io.stdout_errno,
+                stop_at_input_byte: s.io.stop_at_input_byte,
                 ..Default::default()
             };
         }
